@@ -84,6 +84,59 @@ pub fn expr(e: &J) -> String {
     }
 }
 
+/// binding strength of an expression node under the standard SQL precedence (C13): OR 1 < AND 2 < NOT 3 < comparisons, IS, IN 4 < + - 5 < * / 6
+/// < unary minus 7 < cast, subscript 8 < primaries 9
+fn level(e: &J) -> u8 {
+    match e["op"].as_str().unwrap() {
+        "bool" => if e["f"] == "or" { 1 } else { 2 },
+        "not" => 3,
+        "cmp" | "is" | "in" => 4,
+        "arith" => if e["f"] == "+" || e["f"] == "-" { 5 } else { 6 },
+        "neg" => 7,
+        "cast" | "idx" => 8,
+        _ => 9
+    }
+}
+
+fn wrap(e: &J, min_level: u8) -> String { let s = expr_min(e); if level(e) < min_level { format!("({})", s) } else { s } }
+
+/// the same expression written with the fewest parentheses the standard precedence allows (binary operators associate to the left):
+/// what a user would type.  Used by the statements marked `min` (PrecMenu of MC_Engine.tla).
+pub fn expr_min(e: &J) -> String {
+    let op = e["op"].as_str().unwrap();
+    let l = level(e);
+    match op {
+        "lit" => literal(&e["v"]),
+        "col" => e["name"].as_str().unwrap().to_string(),
+        "cmp" | "arith" => format!("{} {} {}", wrap(&e["a"], l), e["f"].as_str().unwrap(), wrap(&e["b"], l + 1)),
+        "bool" => format!("{} {} {}", wrap(&e["a"], l), e["f"].as_str().unwrap().to_uppercase(), wrap(&e["b"], l + 1)),
+        "is" => format!("{} {} {}", wrap(&e["a"], l), if e["neg"].as_bool().unwrap() { "IS NOT" } else { "IS" }, wrap(&e["b"], l + 1)),
+        "in" => format!("{} {} ({})", wrap(&e["a"], l), if e["neg"].as_bool().unwrap() { "NOT IN" } else { "IN" },
+                        e["vs"].as_array().unwrap().iter().map(expr_min).collect::<Vec<_>>().join(", ")),
+        "neg" => format!("-{}", wrap(&e["a"], l)),
+        "not" => format!("NOT {}", wrap(&e["a"], l)),
+        "call" => {
+            let f = e["f"].as_str().unwrap();
+            let args: Vec<String> = e["args"].as_array().unwrap().iter().map(expr_min).collect();
+            if f == "array" { format!("array[{}]", args.join(", ")) }
+            else if let Some(part) = f.strip_prefix("extract_") { format!("EXTRACT({} FROM {})", part.to_uppercase(), args[0]) }
+            else { format!("{}({})", f, args.join(", ")) }
+        }
+        "idx" => format!("{}[{}]", wrap(&e["a"], l), expr_min(&e["i"])),
+        "cast" => format!("{}::{}", wrap(&e["a"], l), type_sql(e["ty"].as_str().unwrap())),
+        "case" => {
+            let mut s = String::from("CASE");
+            for c in e["cl"].as_array().unwrap() { s += &format!(" WHEN {} THEN {}", expr_min(&c[0]), expr_min(&c[1])); }
+            s += &format!(" ELSE {} END", expr_min(&e["el"]));
+            s
+        }
+        o => panic!("expr op {}", o)
+    }
+}
+
+/// literals of the minimal form are written the way a user writes them: -5, -0.25 (a unary minus on the number)
+fn render(e: &J, min: bool) -> String { if min { expr_min(e) } else { expr(e) } }
+
 pub fn aggregate(it: &J) -> String {
     let a = it["a"].as_str().unwrap();
     match a {
@@ -123,11 +176,12 @@ pub fn statement(q: &J, jpath: &str) -> String { statement_for(q, jpath, "plain"
 pub fn statement_for(q: &J, jpath: &str, tdef: &str) -> String {
     let mut s = String::from("SELECT ");
     if q["distinct"].as_bool().unwrap() { s += "DISTINCT "; }
+    let min = q["min"].as_bool().unwrap_or(false);
     if q["kind"] == "select" {
         if q["star"].as_bool().unwrap() { s += "*"; }
         else {
             let ps: Vec<String> = q["proj"].as_array().unwrap().iter().map(|p| {
-                let e = if p["e"]["op"] == "col" { p["e"]["name"].as_str().unwrap().to_string() } else { expr(&p["e"]) };
+                let e = if p["e"]["op"] == "col" { p["e"]["name"].as_str().unwrap().to_string() } else { render(&p["e"], min) };
                 let a = p["as"].as_str().unwrap();
                 if a.is_empty() { e } else { format!("{} AS {}", e, a) }
             }).collect();
@@ -142,7 +196,7 @@ pub fn statement_for(q: &J, jpath: &str, tdef: &str) -> String {
         "outer" => s += &format!(" OUTER JOIN u::{} ON {}", quote(jpath), if tdef == "numjoin" { "u.w = t.v" } else { "t.k = u.k" }),
         _ => {}
     }
-    if !is_none(&q["where"]) { s += &format!(" WHERE {}", expr(&q["where"])); }
+    if !is_none(&q["where"]) { s += &format!(" WHERE {}", render(&q["where"], min)); }
     if q["kind"] == "agg" {
         let g = q["group"].as_array().unwrap();
         if !g.is_empty() { s += &format!(" GROUP BY {}", g.iter().map(expr).collect::<Vec<_>>().join(", ")); }
